@@ -30,6 +30,7 @@ POSITIONS = [
     ('body_agg', 'r :- 1 <= #count {{ 1 : {X} }}.', NORMAL, 'BL1'), ('body_agg_not', 'r :- 1 <= #count {{ 1 : not {X} }}.', NORMAL, 'BL0'),
     ('true_head_body', '#true :- {X}.', TRUEHD, 'BL1'),
     ('neg_head', 'not {X} :- q.', NEGHD, 'HL'), ('notnot_head', 'not not {X} :- q.', NEGHD, 'HL'), ('neg_head_body', 'not r :- {X}.', NEGHD, 'BL1'),
+    ('neg_head_fact', 'not {X}.', NEGHD, 'HL'), ('notnot_head_fact', 'not not {X}.', NEGHD, 'HL'),          # negative head without a body: a constraint all the same
     ('constraint_body', ':- {X}, q.', CONSTR, 'BL1'), ('constraint_not', ':- not {X}.', CONSTR, 'BL0'), ('constraint_cond', ':- q : {X}.', CONSTR, 'BC1'),
     ('constraint_agg', ':- 1 <= #count {{ 1 : {X} }}.', CONSTR, 'BL1'), ('constraint_theory_cond', ':- not &tel {{ r : {X} }}.', CONSTR, 'BC1'),
     ('rule_theory_cond', 's :- not &tel {{ r : {X} }}.', NORMAL, 'BC1'),
@@ -76,7 +77,7 @@ def classify(ans):
     return 'internal:' + str(ans.get('type', ans.get('status')))
 
 
-CONSTRAINT_POS = {'neg_head', 'notnot_head', 'neg_head_body', 'constraint_body', 'constraint_not', 'constraint_cond', 'constraint_agg', 'constraint_theory_cond'}
+CONSTRAINT_POS = {'neg_head', 'notnot_head', 'neg_head_fact', 'notnot_head_fact', 'neg_head_body', 'constraint_body', 'constraint_not', 'constraint_cond', 'constraint_agg', 'constraint_theory_cond'}
 POS_HEAD_NONNORMAL = {'disj_elem', 'choice_elem', 'head_agg_elem'}
 
 
@@ -96,7 +97,9 @@ def property_class(position, form):
     return 'reject-future' if net > 0 else 'accept'
 
 
-PRECEDING = ['', ':- zz1, zz2.\n', 'not zz1 :- zz2.\n', 'zz1 :- zz2.\n', 'zz1 ; zz2 :- zz3.\n', "zz1' :- zz2.\n", ":- zz1, zz2'.\n"]
+PRECEDING = ['', ':- zz1, zz2.\n', 'not zz1 :- zz2.\n', 'zz1 :- zz2.\n', 'zz1 ; zz2 :- zz3.\n', "zz1' :- zz2.\n", ":- zz1, zz2'.\n",
+             # the SAME names, in every prime form, at placements where they are allowed (a decision about one occurrence must not be reused for another)
+             ":- p', p'', 'p, ''p, _p, p, -p', -'p, not p'''.\n", "p' :- zz1.\np'' :- zz2.\n-p' :- zz3.\np :- 'p, _p, -'p.\n"]
 
 
 def table(ctx):
